@@ -27,8 +27,10 @@ inductive RedefOutcome
   | panic (k : PanicKind)
   | outOfFuel
   | badOracle (why : String)
-  /-- `reflect.StructOf` rejects the field list (duplicate names): outside the property's premise -/
+  /-- two declared inputs share a name: `reflect.StructOf` would panic with "duplicate field"
+      (finding F18); after the repair `Redefine` returns an error instead -/
   | structPanic
+  | dupName
 deriving Repr, DecidableEq
 
 /-- `redefineOutputs` -/
@@ -53,7 +55,7 @@ def fieldsOK (ls : List Label) : Bool :=
 `memo` is the state of the run-once cells before the call: the stand-ins are copies, so nothing
 the planning run stores is visible afterwards — the function returns no state. -/
 def redefine (c : Ctx) (cgr : CallGraphResult) (target : FuncDesc) (filterOut : Option Filter)
-    (fuel : Nat) (s0 : CallSt) : RedefOutcome :=
+    (fuel : Nat) (s0 : CallSt) (dupIsError : Bool := true) : RedefOutcome :=
   if !outputsPass c.env target filterOut then .outputFiltered
   else if !cgr.unsat.isEmpty then .unsat cgr.unsat true
   else
@@ -66,6 +68,6 @@ def redefine (c : Ctx) (cgr : CallGraphResult) (target : FuncDesc) (filterOut : 
     | (.error (.badOracle w), _) => .badOracle w
     | (.ok _, s) =>
       let ls := declaredInputs s.inputSet cgr.inputs
-      if fieldsOK ls then .ok ls else .structPanic
+      if fieldsOK ls then .ok ls else if dupIsError then .dupName else .structPanic
 
 end ArgMapper
